@@ -33,7 +33,7 @@ def injected(tier, seed):
                             "counts": [[rnd.randint(0, 9) for _ in range(n)] if rnd.random() < 0.5 else [] for _ in range(4)],
                             "input_counted": [True] * 4})
                 k += 1
-    for j in range(300 if tier == "quick" else 4000):
+    for j in range(800 if tier == "quick" else 6000):
         n = rnd.choice([0, 1, 2, 3, 4, 5, 6, 7, 8])
         size = rnd.choice([1, 1, 2, 3, 7, 100])
         pool = rnd.choice([[5], [0, 1], [10, 11, 12], list(range(0, 2000, 37)), [0, 999999, 123456]])
@@ -56,7 +56,7 @@ def injected(tier, seed):
 def bench_scenarios(tier, seed):
     rnd = random.Random(seed * 331 + 3)
     scs = []
-    for j in range(120 if tier == "quick" else 1200):
+    for j in range(300 if tier == "quick" else 2000):
         sc = G.base(rnd, f"b{j}", action="bench")
         sc["options"] = {"sample_count": rnd.choice([0, 1, 2, 3, 4, 5, 7]), "sample_size": rnd.choice([0, 1, 2, 3])}
         if rnd.random() < 0.3:
